@@ -28,7 +28,24 @@ pub fn run_case(case: &Value) -> Value {
             let _ = std::fs::write(dir.join(uncps(&f["name"])), expand(uncps(&f["content"]), pad));
         }
     }
-    let argv: Vec<String> = case["argv"].as_array().map(|a| a.iter().map(uncps).collect()).unwrap_or_default();
+    // "bytes": the numbers of argv and of the file names are raw bytes (arguments and file names that are not valid UTF-8)
+    let raw = case.get("bytes").and_then(|x| x.as_bool()).unwrap_or(false);
+    let os = |v: &Value| -> std::ffi::OsString {
+        if raw {
+            use std::os::unix::ffi::OsStringExt;
+            std::ffi::OsString::from_vec(v.as_array().map(|a| a.iter().map(|b| b.as_u64().unwrap_or(63) as u8).collect()).unwrap_or_default())
+        } else {
+            std::ffi::OsString::from(uncps(v))
+        }
+    };
+    if raw {
+        if let Some(files) = case["files"].as_array() {
+            for f in files {
+                let _ = std::fs::write(dir.join(os(&f["name"])), expand(uncps(&f["content"]), pad));
+            }
+        }
+    }
+    let argv: Vec<std::ffi::OsString> = case["argv"].as_array().map(|a| a.iter().map(|x| os(x)).collect()).unwrap_or_default();
     let out = guarded(|| {
         let mut child = match Command::new(&jp).args(&argv).current_dir(&dir).stdin(Stdio::piped()).stdout(Stdio::piped()).stderr(Stdio::piped()).spawn() {
             Ok(c) => c,
@@ -48,7 +65,10 @@ pub fn run_case(case: &Value) -> Value {
         // the library in-process on the same expression text and input text
         let expr_text = uncps(&case["expr"]);
         let input_text = expand(uncps(&case["input"]), pad);
-        let lib = match jmespath::compile(&expr_text) {
+        let lib = if case.get("expr_not_utf8").and_then(|x| x.as_bool()).unwrap_or(false) {
+            // the expression argument is not text at all: there is nothing to compile
+            json!({"stage":"compile","pretty":[],"is_string":false,"raw":[]})
+        } else { match jmespath::compile(&expr_text) {
             Err(_) => json!({"stage":"compile","pretty":[],"is_string":false,"raw":[]}),
             Ok(e) => match jmespath::Variable::from_json(&input_text) {
                 Err(_) => json!({"stage":"json","pretty":[],"is_string":false,"raw":[]}),
@@ -58,7 +78,7 @@ pub fn run_case(case: &Value) -> Value {
                                     "is_string":r.is_string(),"raw":cps(r.as_string().map(|s| s.as_str()).unwrap_or(""))}),
                 },
             },
-        };
+        } };
         json!({"exit":code,"stdout":cps(&stdout),"stderr_empty":stderr.is_empty(),"panicked":stderr.contains("panicked at"),"lib":lib})
     });
     let _ = std::fs::remove_dir_all(&dir);
